@@ -170,7 +170,7 @@ def make_texts(case):
                         n = md5len.setdefault(sid, random.Random("%s-%s" % (case["sseed"], sid)).randint(1, 8))
                         secrets[sid] = S.md5_secret(vr, n)
                     else:
-                        secrets[sid] = S.gen_secret(vr, cls, plain_alpha=form["plain"], reserved_variants=True)
+                        secrets[sid] = S.gen_secret(vr, cls, plain_alpha=form["plain"], reserved_variants=True, dollar_text=not form["plain"])
                 sec = secrets[sid]
                 if cls == "j9":
                     # same salt character / filler structure in both valuations (the replacement must not
@@ -220,8 +220,11 @@ def check_case(ctx, case):
     texts, vals, trails = make_texts(case)
     outs, logs = [], []
     fired = {"set": set(), "n": 0}
+    kw = {"undo_ip_anon": True} if case["sseed"] % 5 == 0 else {}  # password removal is also due in an undo run (-u -p)
+    if kw:
+        ctx.count("documents_in_undo_mode")
     for t in texts:
-        o, lg, _ = run_pwd(t, case["salt"], fired=fired if not outs else None)
+        o, lg, _ = run_pwd(t, case["salt"], fired=fired if not outs else None, **kw)
         outs.append(o)
         logs.append(lg)
     for gi in fired["set"]:
